@@ -21,7 +21,7 @@
    middle of a paint stroke, when the caller has already painted the array) and in the documented
    stand-alone form (hypothesis W_seg). *)
 From Coq Require Import ZArith List Bool Sorted.
-From FT Require Import Base.Dict Model.Edit Model.EditExec Proofs.EditInv Proofs.EditSeg Proofs.EditFresh Proofs.EditSegExample.
+From FT Require Import Base.Dict Model.Edit Model.EditExec Proofs.EditInv Proofs.EditSeg Proofs.EditSegUndo Proofs.EditFresh Proofs.EditSegExample.
 Import ListNotations.
 Open Scope Z_scope.
 
@@ -150,6 +150,17 @@ Theorem C07_paint_error_restores : forall st nv t idx T force e st' sg,
   paint st nv t idx T force = Err e st' -> seg st = Some sg -> seg st' = Some sg.
 Proof. exact paint_error_restores. Qed.
 
+(* Undoing a successful stroke (Tracks.undo right after it) succeeds and restores the previous array,
+   bit for bit - whichever nodes the stroke deleted, shrank, grew or added.  Hypotheses: the labels were
+   in correspondence before the stroke (W_seg; needed only when the stroke creates a new node: its label
+   must not already occur in the frame), and "time" is not a regionprops key. *)
+Theorem C07_paint_undo : forall st nv t idx T force a st1 sg r st2,
+  paint st nv t idx T force = Ok a st1 -> seg st = Some sg ->
+  W_seg st -> ~ In KTime (rp_act (ft st)) ->
+  undo st1 = Ok r st2 ->
+  r = true /\ seg st2 = Some sg.
+Proof. exact paint_undo. Qed.
+
 (* ---------- non-vacuity ---------- *)
 (* ex0 (Proofs/EditSegExample.v): frames  1 1 / 0 0 ,  2 2 / 3 0 ,  0 4 / 4 0 ; node 1 (t=0) divides into
    2 and 3 (t=1), 2 continues to 4 (t=2); regionprops keys pos, area active; IoU active *)
@@ -229,3 +240,4 @@ Print Assumptions C07_W_seg_upd_attrs.
 Print Assumptions C07_W_seg_upd_track.
 Print Assumptions C07_paint_exact.
 Print Assumptions C07_paint_error_restores.
+Print Assumptions C07_paint_undo.
